@@ -60,6 +60,57 @@ func runLexq(w *out.W, tier string) {
 				raw := b.Buffer.String()
 				good := quoteIdent(q, pg) + "." + quoteIdent(t, pg)
 				gq := strconv.Quote(q) + "." + strconv.Quote(t)
+				// the same qualifier through every qualifying method of the real Builder: the text
+				// must read back as exactly [q, names...] (oracle; the recorded class when a name
+				// holds the dialect's quote character)
+				idx := g.shaped("i_a3", st, "index")
+				other := g.shaped("oth4", sq, "")
+				empty := ""
+				type call struct {
+					what string
+					q    *string
+					f    func(b *verifx.Builder)
+					want []string
+				}
+				own := schema.New("own")
+				tab := &schema.Table{Name: t, Schema: own}
+				calls := []call{
+					{"Table", &q, func(b *verifx.Builder) { b.Table(tab) }, []string{q, t}},
+					{"TableResource(index)", &q, func(b *verifx.Builder) { b.TableResource(tab, &schema.Index{Name: idx}) }, []string{q, t, idx}},
+					{"TableResource(column)", &q, func(b *verifx.Builder) { b.TableResource(tab, &schema.Column{Name: idx}) }, []string{q, t, idx}},
+					{"TableColumn", &q, func(b *verifx.Builder) { b.TableColumn(tab, &schema.Column{Name: idx}) }, []string{q, t, idx}},
+					{"SchemaResource", &q, func(b *verifx.Builder) { b.SchemaResource(own, idx) }, []string{q, idx}},
+					{"RefTable", &q, func(b *verifx.Builder) { b.RefTable(&schema.Table{Name: "c", Schema: schema.New(other)}, tab) }, []string{q, t}},
+					{"RefTable(cross-schema exception)", &empty, func(b *verifx.Builder) {
+						b.RefTable(&schema.Table{Name: "c", Schema: own}, &schema.Table{Name: t, Schema: schema.New(other)})
+					}, []string{other, t}},
+					{"Table(own schema)", nil, func(b *verifx.Builder) { b.Table(&schema.Table{Name: t, Schema: schema.New(other)}) }, []string{other, t}},
+					{"View", &q, func(b *verifx.Builder) { b.View(&schema.View{Name: t, Schema: own}) }, []string{q, t}},
+					{"Func", &q, func(b *verifx.Builder) { b.Func(&schema.Func{Name: t, Schema: own}) }, []string{q, t}},
+				}
+				for _, c := range calls {
+					bb := &verifx.Builder{QuoteOpening: dq(pg)[0], QuoteClosing: dq(pg)[0], Schema: c.q}
+					bb.P("X")
+					c.f(bb)
+					bb.P("Y")
+					text := strings.TrimPrefix(bb.Buffer.String(), "X ")
+					one(pg, text)
+					cs, _, mal := lexChains(text, pg)
+					ok := mal == "" && len(cs) > 0 && len(cs[0].parts) == len(c.want)
+					for k := 0; ok && k < len(c.want); k++ {
+						ok = cs[0].parts[k] == c.want[k]
+					}
+					w.Count("method:" + c.what)
+					if !ok {
+						cls := "spelling-not-one-identifier"
+						for _, n := range c.want {
+							if hasQuoteChar(n, pg) {
+								cls = "ident-quote-unescaped"
+							}
+						}
+						w.Violation(fmt.Sprintf("l%d", n), cls, fmt.Sprintf("%s %s under qualifier %s writes %s, which does not read as %q", map[bool]string{false: "mysql", true: "pg"}[pg], c.what, opt(c.q), text, c.want))
+					}
+				}
 				for _, post := range posts {
 					one(pg, strings.TrimSuffix(raw, " ")+post)
 					one(pg, good+post)
